@@ -79,8 +79,8 @@ Definition run_schema (s : sx) : sx :=
               (let K := length dfs in
                (* the largest level the fuel of the case allows (AgreementRef.agreement_with_references): n + K < fuel, n * (K + 1) <= fuel *)
                let n := Nat.min (fuel - K - 1) (Nat.div fuel (S K)) in
-               ofBool ((cleanr_b f_finite false orc dfs K n sch && jd_b f_finite false (S (goval_depth data)) data) ||
-                       (cleanr_b f_finite true orc dfs K n sch && jd_b f_finite true (S (goval_depth data)) data)));
+               let inside (an aa : bool) := cleanr_b f_finite an aa orc dfs K n sch && jd_b f_finite an aa (S (goval_depth data)) data in
+               ofBool (inside false false || inside false true || inside true false || inside true true));
               (* is the case inside the class on which a verdict is proved to be returned with this fuel
                  (Schema/PipelineTermRec.v, decided by PipelineTermDec.v)? *)
               (let K := Nat.min fuel 48 in
